@@ -129,6 +129,23 @@ void h_destroy(void)
 	VERIF_COVER(r == 0); VERIF_COVER(r != 0 && G_lead); VERIF_COVER(r != 0 && !G_lead);
 }
 
+/* destroy when the LAST node is a dummy but the queue is not empty: head -> A1 (real) -> D1 (dummy) <- tail.  This state is
+ * reachable: a dequeuer that found A1 alone appends a fresh dummy behind it before removing it (and an enqueue may have
+ * slipped in between); emptiness is decided at the HEAD. */
+void h_destroy_trailing_dummy(void)
+{
+	struct cds_lfq_node_rcu_dummy *D1; int r; unsigned long two;
+	two = nondet_bool();
+	D1 = malloc(sizeof(*D1)); VERIF_REQUIRE(D1 != 0);
+	A1.dummy = A2.dummy = 0; D1->parent.dummy = 1; D1->parent.next = 0; D1->q = &q;
+	A1.next = two ? &A2 : &D1->parent; A2.next = &D1->parent;
+	q.head = &A1; q.tail = &D1->parent; q.queue_call_rcu = rec_call_rcu; G_rcu_calls = 0; G_free_calls = 0;
+	r = cds_lfq_destroy_rcu(&q);
+	VERIF_ASSERT(r == -EPERM && G_free_calls == 0 && G_rcu_calls == 0, "lfq destroy: a queue that still holds real nodes is refused even when its LAST node is a dummy; nothing is freed");
+	VERIF_ASSERT(q.head == &A1 && q.tail == &D1->parent && D1->parent.next == 0, "lfq destroy: a refused destroy changes nothing");
+	VERIF_COVER(two); VERIF_COVER(!two);
+}
+
 void h_init(void)
 {
 	struct cds_lfq_queue_rcu qq;
